@@ -197,13 +197,18 @@ func c16hier(c *core.Ctx, r *core.Reporter) {
 }
 
 // unhashableGuard: the key value was tested to be of a hashable kind on the way to the map operation.
-func c16key(c *core.Ctx, r *core.Reporter) {
-	const key = "C16.key"
+func c16key(c *core.Ctx, r *core.Reporter) { hashKeyRules(c, r, "C16.key", true) }
+
+// hashKeyRules: keyID names the hashability rule (C16.key, or C09.key when run for C09, which names the
+// unhashable key among the host faults); the equivalence and presence rules belong to C16 only.
+func hashKeyRules(c *core.Ctx, r *core.Reporter, key string, all bool) {
 	const pres = "C16.presence"
 	r.Rule(key, "every lookup, store or delete on a value of type slip.HashTable has a key that is a constant, a value of a statically hashable type, or an Object that passed a type test on the way (a type switch or assertion restricting it to hashable kinds): an arbitrary Object key faults the host for lists, vectors, octets and hash tables", 3)
 	const equiv = "C16.equiv"
-	r.Rule(equiv, "every lookup, store or delete on a slip.HashTable uses a key that is a constant, a value of a type for which Go's == is the language's eql (fixnum, character, octet ...), or the result of a key-normalising call: the table is a Go map, so an arbitrary Object key is compared by Go identity and two eql bignums, ratios or long-floats (pointers), symbols that differ in case, or equalp strings are different keys", 3)
-	r.Rule(pres, "every lookup in a slip.HashTable uses the comma-ok form and the ok value is used: nil is a legal stored value, so a missing key must be told apart from a key bound to nil (equalp on tables, gethash)", 2)
+	if all {
+		r.Rule(equiv, "every lookup, store or delete on a slip.HashTable uses a key that is a constant, a value of a type for which Go's == is the language's eql (fixnum, character, octet ...), or the result of a key-normalising call: the table is a Go map, so an arbitrary Object key is compared by Go identity and two eql bignums, ratios or long-floats (pointers), symbols that differ in case, or equalp strings are different keys", 3)
+		r.Rule(pres, "every lookup in a slip.HashTable uses the comma-ok form and the ok value is used: nil is a legal stored value, so a missing key must be told apart from a key bound to nil (equalp on tables, gethash)", 2)
+	}
 	hg := newHashGuards(c, lenflow.New(c).NoReturn)
 	r.Infof("C16.key: hashability predicates found by structure: %d; ensuring functions: %d", len(hg.pred), len(hg.ensure))
 	for _, fn := range c.ModuleFuncs() {
@@ -226,7 +231,7 @@ func c16key(c *core.Ctx, r *core.Reporter) {
 				}
 				name := core.SSAName(fn) + "|" + kind
 				// presence
-				if lk, ok := in.(*ssa.Lookup); ok {
+				if lk, ok := in.(*ssa.Lookup); ok && all {
 					used := false
 					if lk.CommaOk {
 						for _, rf := range *lk.Referrers() {
@@ -252,6 +257,9 @@ func c16key(c *core.Ctx, r *core.Reporter) {
 					}
 				}
 				r.Decide(okKey, key, name, c.Pos(in.Pos()), why)
+				if !all {
+					continue
+				}
 				// equivalence of keys: the table is a Go map, whose key equality is Go's ==
 				okEq, whyEq := equivalentKey(k, 0)
 				if !okEq && keyFromRangeOfAny(k) {
